@@ -140,3 +140,107 @@ Theorem C09_zonal_feasibility_nonvacuous :
   /\ vsum (map zd_dh [nv_z1; nv_z2]) 1 = [50] /\ vsum (map zd_dc [nv_z1; nv_z2]) 1 = [90].
 Proof. exact site_bound_nonvacuous. Qed.
 Print Assumptions C09_zonal_feasibility_nonvacuous.
+
+(* ---------------------------------------------------------------------------------------------------------------------- *)
+(* THE LOWER BOUND WITH DATA HYPOTHESES ONLY (proofs/ComposeSiteFeasible.v): the zonal C03 / C04 hypotheses of              *)
+(* C09_lower_bound_from_zonal_feasibility are DERIVED, for the duties the model of get_utility_targets assigns (di_duties)   *)
+(* on the output table of the model of get_GCC_without_pockets (gcc_np), by composing C07 (pocket-free GCC), the C04         *)
+(* demand-column composition (ComposePocketsUtility), C04 level feasibility and C03 sums.                                   *)
+(* A zone  z = mkZg hot cold Ts Hs out : process streams, GCC rows (T, H_net), output table of gcc_np.                       *)
+(* ---------------------------------------------------------------------------------------------------------------------- *)
+From OP Require Import model.Pockets proofs.UtilityRows proofs.ComposeSiteFeasible.
+
+(* what `zone_data hus cus z` says -- the complete list of data hypotheses on a zone (hus / cus: the site's utilities):
+   d1 the GCC column is the exact residual (C06_table_residual_is_exact); d2 the GCC is Robust, has a pinch, gcc_np returns out
+   (C07); d3 every utility is gridded on the rows of out (0.1 K wide, clear of the rows, both ends rows: C04); d4 one hot
+   utility reaches the top row, one cold utility the bottom row; d5 every end point of a stream or utility is (==) a GCC row *)
+Theorem C09_zone_data_means :
+  forall hus cus z, zone_data hus cus z <->
+  (wfs (zg_hot z) /\ wfs (zg_cold z)
+   /\ Forall2 (fun t h => h == List.hd 0 (zg_Hs z) - Dnet (zg_hot z) (zg_cold z) t) (zg_Ts z) (zg_Hs z)
+   /\ robust_b tol (zg_Ts z) (zg_Hs z) = true /\ has_pinch tol (zg_Hs z) = true /\ gcc_np tol (zg_Ts z) (zg_Hs z) = Ok (zg_out z)
+   /\ (forall v, In v hus -> gridded_hot tol (map rT (zg_out z)) v) /\ (forall v, In v cus -> gridded_cold tol (map rT (zg_out z)) v)
+   /\ (exists uh, In uh hus /\ - tol <= u_tmaxs uh - List.hd 0 (zg_Ts z)) /\ (exists uc, In uc cus /\ u_tmins uc <= List.last (zg_Ts z) 0 + tol)
+   /\ (forall e, In e (bps (zg_hot z) (zg_cold z) (uviews hus (zg_dh hus cus z)) (uviews cus (zg_dc hus cus z))) ->
+                  exists t, In t (zg_Ts z) /\ t == e)).
+Proof. intros hus cus z. exact (conj (fun H => H) (fun H => H)). Qed.
+Print Assumptions C09_zone_data_means.
+
+(* d1 and d5 are facts of the problem-table model: for the stage model of a zone whose grid contributors are the site's
+   utilities, on lattice inputs with rows more than the activity window apart, zone_data needs d2, d3, d4 only *)
+Theorem C09_zone_data_of_the_stage_model :
+  forall hot cold hus cus out,
+  let extra := ladder_views (hus ++ cus) in
+  let p := stage_model act_window hot cold extra in
+  wfs hot -> wfs cold -> hot ++ cold <> [] ->
+  CascadeGrid.on_lattice (endpoints (hot ++ cold ++ extra)) ->
+  CascadeGrid.gaps_b act_window (grid_of (endpoints (hot ++ cold ++ extra))) = true ->
+  robust_b tol (pT p) (pHn p) = true -> has_pinch tol (pHn p) = true -> gcc_np tol (pT p) (pHn p) = Ok out ->
+  (forall v, In v hus -> gridded_hot tol (map rT out) v) -> (forall v, In v cus -> gridded_cold tol (map rT out) v) ->
+  (exists uh, In uh hus /\ - tol <= u_tmaxs uh - List.hd 0 (pT p)) -> (exists uc, In uc cus /\ u_tmins uc <= List.last (pT p) 0 + tol) ->
+  zone_data hus cus (mkZg hot cold (pT p) (pHn p) out).
+Proof. exact stage_zone_data. Qed.
+Print Assumptions C09_zone_data_of_the_stage_model.
+
+(* one zone: from the data to  Dnet <= U + 2 tol  at every temperature and to both sums closing to within 2 tol of the
+   zone's targets Qh = H_net[0], Qc = H_net[last] (tol at the pinch row + tol at the entry test of _target_utility) *)
+Theorem C09_zone_feasible_from_the_gcc :
+  forall hot cold hus cus Ts Hs out uh uc,
+  let T := map rT out in let HA := map rNP out in
+  let dd := di_duties tol T HA (sep_hot HA) (sep_cold HA) hus cus in
+  wfs hot -> wfs cold ->
+  Forall2 (fun t h => h == List.hd 0 Hs - Dnet hot cold t) Ts Hs ->
+  robust_b tol Ts Hs = true -> has_pinch tol Hs = true -> gcc_np tol Ts Hs = Ok out ->
+  (forall v, In v hus -> gridded_hot tol T v) -> (forall v, In v cus -> gridded_cold tol T v) ->
+  In uh hus /\ - tol <= u_tmaxs uh - List.hd 0 Ts -> In uc cus /\ u_tmins uc <= List.last Ts 0 + tol ->
+  (forall e, In e (bps hot cold (uviews hus (fst dd)) (uviews cus (snd dd))) -> exists t, In t Ts /\ t == e) ->
+  (forall x, Dnet hot cold x <= U (uviews hus (fst dd)) (uviews cus (snd dd)) x + 2 * tol)
+  /\ (List.hd 0 Hs - 2 * tol <= qsum (fst dd) /\ qsum (fst dd) <= List.hd 0 Hs
+      /\ Forall (fun q => 0 <= q) (fst dd) /\ List.length hus = List.length (fst dd))
+  /\ (List.last Hs 0 - 2 * tol <= qsum (snd dd) /\ qsum (snd dd) <= List.last Hs 0
+      /\ Forall (fun q => 0 <= q) (snd dd) /\ List.length cus = List.length (snd dd)).
+Proof. exact zone_from_gcc. Qed.
+Print Assumptions C09_zone_feasible_from_the_gcc.
+
+(* THE SITE, any number n of zones: the total-site targets computed from the site utilities carrying the summed zonal duties
+   are at least the exact direct-integration optimum (Qh*, Qc* of C01) of ALL site streams, up to the zonal closing errors:
+        Qh* <= Qh_TS + 2 n tol        Qc* <= Qc_TS + 4 n tol        Dnet(site streams) T <= Qh_TS + 2 n tol  for every T.
+   Hypotheses: zone_data for every zone; the site utility lists are ladders (lower shifted end below the upper one); g is a descending grid for the
+   site utility cascade covering the utilities' end points with rows more than the window apart (as in C09_total_site_le_sum).
+   still assumed (data, not derivable in these models): d2 Robust GCC with a pinch; d3 gridded ON THE OUTPUT TABLE of gcc_np
+   (its inserted breakpoints are rows too); d4 extreme utilities.  The slack is real: each zonal sum closes only to tol. *)
+Theorem C09_total_site_ge_direct_from_data :
+  forall w hus cus (zs : list zgcc) g,
+  let hu := site_hu hus cus zs in let cu := site_cu hus cus zs in
+  let hotS := flat_map zg_hot zs in let coldS := flat_map zg_cold zs in
+  0 < w -> (forall u, In u hus -> u_tmins u < u_tmaxs u) -> (forall u, In u cus -> u_tmins u < u_tmaxs u) ->
+  desc g -> g <> [] -> covers g (eps_all hu cu) -> gaps_ok w 0 g ->
+  Forall (zone_data hus cus) zs ->
+  Qh_star hotS coldS <= site_Qh w hu cu g + nq (List.length zs) * (2 * tol)
+  /\ Qc_star hotS coldS <= site_Qc w hu cu g + nq (List.length zs) * (4 * tol)
+  /\ (forall T, Dnet hotS coldS T <= site_Qh w hu cu g + nq (List.length zs) * (2 * tol)).
+Proof. exact site_targets_ge_direct. Qed.
+Print Assumptions C09_total_site_ge_direct_from_data.
+
+(* non-vacuity, WITH INTER-ZONE RECOVERY through an intermediate utility level.  Site utilities: hot 300 and 140, cold 150
+   and 10 (0.1 K wide).  Zone 1 = hot stream 200->160 CP 1 (Qh 0, Qc 40, all to the 150-degree cold utility); zone 2 = cold
+   stream 100->130 CP 1 (Qh 30 from the 140-degree hot utility, Qc 0).  Both zones satisfy zone_data (through
+   C09_zone_data_of_the_stage_model); the site recovers the 30: Qh_TS = 0 = Qh*, Qc_TS = 10 = Qc* (zonal sums 30 and 40). *)
+Theorem C09_two_zones_with_recovery :
+  let zs := [rz_z1; rz_z2] in
+  let hu := site_hu rz_hus rz_cus zs in let cu := site_cu rz_hus rz_cus zs in
+  Forall (zone_data rz_hus rz_cus) zs
+  /\ map (zg_dd rz_hus rz_cus) zs = [([0; 0], [40; 0]); ([0; 30], [0; 0])]
+  /\ (List.hd 0 (zg_Hs rz_z1), List.last (zg_Hs rz_z1) 0, List.hd 0 (zg_Hs rz_z2), List.last (zg_Hs rz_z2) 0) = (0, 40, 30, 0)
+  /\ (site_Qh act_window hu cu rz_g, site_Qc act_window hu cu rz_g) = (0, 10)
+  /\ (Qh_star (rz_h1 ++ []) ([] ++ rz_c2), Qc_star (rz_h1 ++ []) ([] ++ rz_c2)) = (0, 10)
+  /\ desc rz_g /\ covers rz_g (eps_all hu cu) /\ gaps_ok act_window 0 rz_g.
+Proof. exact two_zones_with_recovery. Qed.
+Print Assumptions C09_two_zones_with_recovery.
+Theorem C09_two_zones_bound :
+  let zs := [rz_z1; rz_z2] in
+  let hu := site_hu rz_hus rz_cus zs in let cu := site_cu rz_hus rz_cus zs in
+  Qh_star (rz_h1 ++ []) ([] ++ rz_c2) <= site_Qh act_window hu cu rz_g + nq 2 * (2 * tol)
+  /\ Qc_star (rz_h1 ++ []) ([] ++ rz_c2) <= site_Qc act_window hu cu rz_g + nq 2 * (4 * tol).
+Proof. exact two_zones_bound. Qed.
+Print Assumptions C09_two_zones_bound.
